@@ -784,6 +784,9 @@ package websocket
 //@ tags C07 C12 C15
 //@ allocbound len(s)
 //@ ensures[shrink] len(rest) <= len(s)
+//@ assert at return#2[C15.quoted]: s[i+1] == '"' && forall(k, 1, i+1, s[k] != '"' && s[k] != 92)
+//@ assert at return#3[C15.quoted]: s[i+1] == '"' && !escape
+//@ loop 1 invariant forall(k, 0, i, s[k] != '"' && s[k] != 92)
 //@ loop 1 invariant 0 <= i && i <= len(s)
 //@ loop 1 decreases len(s) - i
 //@ loop 2 invariant 0 <= j && j < i && i <= len(s) && len(p) == len(s) - 1 && off(p) == 0
